@@ -288,10 +288,9 @@ class Gen:
     """A positive literal over predicate sig; extends env with fresh vars."""
     r, p = self.rng, self.p
     args = []
+    env_before = dict(env)   # parameters of an injectible predicate must be
+    #                          ground before the call (not bound by its outputs)
     for f, ft in sig.fields:
-      if sig.inline and f not in sig.params:
-        # outputs of an injectible predicate
-        pass
       if not IsPositional(f) and not (sig.inline and f in sig.params):
         if r.random() < 0.35:
           continue
@@ -299,7 +298,7 @@ class Gen:
       same = self.VarsOf(env, ft)
       x = r.random()
       if need_ground:
-        e = self.Expr(ft, env, 1, False)
+        e = self.Expr(ft, env_before, 1, False)
       elif self.Scalar(ft) and same and x < p['p_join']:
         e = Var(r.choice(same))
         self.features.add('join')
